@@ -21,13 +21,13 @@ type gCond interface{ isCond() }
 type gStmt interface{ isStmt() }
 
 type (
-	eLit  struct{ v int64 }
-	eVar  struct{ name string }
-	eBin  struct {
+	eLit struct{ v int64 }
+	eVar struct{ name string }
+	eBin struct {
 		op   string
 		l, r gExpr
 	}
-	eCallFn  struct {
+	eCallFn struct {
 		fn   string
 		args []gExpr
 	}
@@ -35,7 +35,7 @@ type (
 		name string
 		args []gExpr
 	}
-	eMark     struct { // mk(k, e): prints "m<k>=<e>", returns e
+	eMark struct { // mk(k, e): prints "m<k>=<e>", returns e
 		k int
 		e gExpr
 	}
@@ -75,7 +75,7 @@ type gCatch struct {
 }
 
 type (
-	sLet    struct {
+	sLet struct {
 		name string
 		e    gExpr
 	}
@@ -83,28 +83,28 @@ type (
 		name string
 		e    gExpr
 	}
-	sTrace  struct {
+	sTrace struct {
 		id int
 		e  gExpr
 	}
-	sIf     struct {
+	sIf struct {
 		c         gCond
 		then, els []gStmt
 	}
-	sWhile  struct { // ctr := 0 (declared before); while ctr < n && c { ctr += 1; body }
+	sWhile struct { // ctr := 0 (declared before); while ctr < n && c { ctr += 1; body }
 		label string
 		ctr   string
 		n     int64
 		c     gCond
 		body  []gStmt
 	}
-	sFor    struct {
+	sFor struct {
 		label  string
 		v      string
 		lo, hi int64
 		body   []gStmt
 	}
-	sLoop   struct { // loop { ctr += 1; break if ctr > n; body }
+	sLoop struct { // loop { ctr += 1; break if ctr > n; body }
 		label string
 		ctr   string
 		n     int64
@@ -142,21 +142,21 @@ type (
 	}
 )
 
-func (sLet) isStmt()      {}
-func (sAssign) isStmt()   {}
-func (sTrace) isStmt()    {}
-func (sIf) isStmt()       {}
-func (sWhile) isStmt()    {}
-func (sFor) isStmt()      {}
-func (sLoop) isStmt()     {}
-func (sBreak) isStmt()    {}
-func (sContinue) isStmt() {}
-func (sReturn) isStmt()   {}
-func (sThrow) isStmt()    {}
-func (sTry) isStmt()      {}
-func (sDefer) isStmt()    {}
-func (sClosure) isStmt()  {}
-func (sExpr) isStmt()     {}
+func (sLet) isStmt()          {}
+func (sAssign) isStmt()       {}
+func (sTrace) isStmt()        {}
+func (sIf) isStmt()           {}
+func (sWhile) isStmt()        {}
+func (sFor) isStmt()          {}
+func (sLoop) isStmt()         {}
+func (sBreak) isStmt()        {}
+func (sContinue) isStmt()     {}
+func (sReturn) isStmt()       {}
+func (sThrow) isStmt()        {}
+func (sTry) isStmt()          {}
+func (sDefer) isStmt()        {}
+func (sClosure) isStmt()      {}
+func (sExpr) isStmt()         {}
 func (sBoolCoalesce) isStmt() {}
 func (sLetClo) isStmt()       {}
 
@@ -895,8 +895,8 @@ type gKnobs struct {
 }
 
 type gGen struct {
-	r    *rand.Rand
-	k    gKnobs
+	r      *rand.Rand
+	k      gKnobs
 	next   int
 	fns    []*gFn // Int-returning functions (callable from expressions)
 	makers []*gFn // closure-returning functions
@@ -1119,7 +1119,7 @@ func (g *gGen) stmt(sc *gScope) []gStmt {
 			var fin []gStmt
 			if withFinally {
 				fc := sc.child()
-				fc.loops = nil // no break/continue out of finally
+				fc.loops = nil  // no break/continue out of finally
 				fc.inFn = false // no return out of finally
 				fc.inFin = true
 				fc.quiet = true // avoid-rule: nothing that can throw inside a finally body
